@@ -28,7 +28,7 @@ ASSUMPTIONS = [
 ]
 BUDGET = {"quick": 75, "thorough": 800}
 ROUNDS = {"thorough": 16}
-FLOORS = {"reference_comparisons": {"quick": 800, "thorough": 8000}, "metamorphic_checks": {"quick": 500, "thorough": 5000},
+FLOORS = {"after_update_comparisons": {"quick": 400, "thorough": 4000}, "reference_comparisons": {"quick": 800, "thorough": 8000}, "metamorphic_checks": {"quick": 500, "thorough": 5000},
           "models": 6, "schemes": 4, "permuted": 300, "batched_rows": 100}
 
 MODELS = ["constant", "exponential", "skyride", "skygrid", "linear", "piecewise-exponential"]
@@ -325,6 +325,26 @@ def run_case(case):
             V.append(tt.viol("C08:permutation:" + m, "distribution().log_prob on a permuted height vector gives %.15g, reference %.15g" % (v2, refs[0]), **detail))
         if m == "skyride" and abs(v2 - refs[0]) > 1e-9 * max(1.0, abs(refs[0])):
             V.append(tt.viol("C08:permutation:" + m, "distribution().log_prob on a permuted height vector gives %.15g, reference %.15g" % (v2, refs[0]), **detail))
+        # ---- after an update of one parameter through the public interface the model is that of the updated N(t)
+        rng_u = np.random.default_rng(case["seed"] + 17)
+        d2 = dict(d)
+        for _ in range(2):
+            names = ["theta"] + (["growth"] if m == "exponential" else []) + (["grid"] if m in ("skygrid", "linear") else [])
+            nm = names[int(rng_u.integers(len(names)))]
+            if nm == "theta":
+                d2["theta"] = [float(x * np.exp(rng_u.normal(0, 0.7))) for x in d2["theta"]]
+            elif nm == "growth":
+                d2["growth"] = [float(d2["growth"][0] * rng_u.uniform(0.3, 3.0))]
+            else:
+                d2["grid"] = [float(x * f) for x, f in zip(d2["grid"], [rng_u.uniform(0.8, 1.25)] * len(d2["grid"]))]
+            dic["coal." + nm].tensor = torch.tensor(d2[nm], dtype=torch.float64)
+            v3 = float(tt.as_np(dic["coal"](), "C08:not-a-tensor:" + m).reshape(-1)[0])
+            demo2, left2 = demography(m, d2)
+            ref3 = float(kg.log_density(d2["sampling"], d2["coalescent"], demo2, left2))
+            C["after_update_comparisons"] = C.get("after_update_comparisons", 0) + 1
+            if not np.isfinite(v3) or abs(v3 - ref3) > 1e-9 * max(1.0, abs(ref3)):
+                V.append(tt.viol("C08:after-update:%s:%s" % (m, nm), "%s after assigning a new %s: log density %.15g, Kingman reference of the updated model %.15g" % (m, nm, v3, ref3), updated=nm, new_value=d2[nm], **detail))
+                break
         # ---- metamorphic relations on the library alone
         th0 = float(gm.loguniform(rng, 1e-2, 1e3))
         const_val, _ = lib_value(model_json("constant", d, "data", theta=[th0]), "constant")
